@@ -173,7 +173,7 @@ func (uc UseCase) maybeDiscoverPort(ctx context.Context, pending server.Server) 
 		// while we were updating this server,
 		// it's got the port, or it was put in the queue.
 		// In such a case, resolve the conflict by not doing anything
-		if conflict.HasDiscoveryStatus(ds.Port | ds.PortRetry) {
+		if conflict.HasAnyDiscoveryStatus(ds.Port | ds.PortRetry) {
 			return false
 		}
 		conflict.UpdateDiscoveryStatus(ds.PortRetry)
